@@ -76,18 +76,19 @@ pub fn add_wins_situation<S: Subject>(sim: &Sim<S>) -> bool {
 pub fn property() -> Property {
     let mut jobs: Vec<Box<dyn JobT>> = Vec::new();
     let variants: Vec<(&str, Disc, Weights, bool, u64, u64)> = vec![
-        ("Orswot/causal/ops", Disc::Causal, Weights::ops_only(), false, 4000, 150_000),
-        ("Orswot/causal/ops+merges+stale", Disc::Causal, Weights::mixed(), false, 4000, 150_000),
-        ("Orswot/fifo/ops", Disc::Fifo, Weights::ops_only(), true, 4000, 150_000),
-        ("Orswot/fifo/ops+merges+stale", Disc::Fifo, Weights::mixed(), true, 4000, 150_000),
+        ("Orswot/causal/ops", Disc::Causal, Weights::ops_only(), false, 24000, 150_000),
+        ("Orswot/causal/ops+merges+stale", Disc::Causal, Weights::mixed(), false, 24000, 150_000),
+        ("Orswot/fifo/ops", Disc::Fifo, Weights::ops_only(), true, 24000, 150_000),
+        ("Orswot/fifo/ops+merges+stale", Disc::Fifo, Weights::mixed(), true, 24000, 150_000),
     ];
     for (label, disc, w, newest, q, t) in variants {
         let pc = PlanCfg::new(w).steps(4, 28);
         let mut cfg = RunCfg::new(disc);
         cfg.newest_first = newest;
         jobs.push(
-            job(label, q, t, move || plan_strategy(&pc), move |p: &Plan, st: &mut Stats| model_check::<SOrswot>(p, &cfg, st, &add_wins_situation::<SOrswot>, "Orswot read differs from the observed-remove/add-wins specification"))
-                .floor("nontrivial", 0.03)
+            job(label, q, t, { let pc = pc.clone(); move || plan_strategy(&pc) }, move |p: &Plan, st: &mut Stats| model_check::<SOrswot>(p, &cfg, st, &add_wins_situation::<SOrswot>, "Orswot read differs from the observed-remove/add-wins specification"))
+                .decoder({ let pc = pc.clone(); move |d: &[u8]| decode_plan(&pc, d) })
+            .floor("nontrivial", 0.03)
                 .boxed(),
         );
     }
